@@ -21,6 +21,12 @@ EXACT = {
     "quarter3": [[0.0, 1.0], [-1.0, 0.0]],
     "half": [[-1.0, 0.0], [0.0, -1.0]],
     "shear0": [[0.0, 1.0], [1.0, 1.0]],
+    # triangular matrices: one off-diagonal entry is exactly 0 (and so absent from a CDELT+PC header), the other is
+    # large enough to decide the sign of the determinant if the absent one were given a wrong default
+    "lower2": [[1.0, 0.0], [2.0, 1.0]],
+    "lowerm2": [[1.0, 0.0], [-2.0, 1.0]],
+    "upper2": [[1.0, 2.0], [0.0, 1.0]],
+    "upperm2": [[1.0, -2.0], [0.0, 1.0]],
 }
 
 
@@ -39,6 +45,14 @@ def make_wcs(proj, theta, scale, skew, parity, crpix, crval):
         else:
             w.wcs.cdelt = [b.wcs.cdelt[1], b.wcs.cdelt[0]]
             w.wcs.pc = np.array(b.wcs.pc)[[1, 0], :]
+        return w
+
+    if proj.endswith("-POLE"):
+        # the same WCS with a non-default native longitude/latitude of the celestial pole (LONPOLE, LATPOLE)
+        w = make_wcs(proj[: -len("-POLE")], theta, scale, skew, parity, crpix, crval)
+        w.wcs.lonpole = 150.0
+        w.wcs.latpole = 30.0
+        w.wcs.set()
         return w
 
     if isinstance(theta, str):
@@ -236,7 +250,7 @@ def run(tier, seed):
         crvals = crvals + [(180.0, 89.9), (0.05, -45.0)]
     rep.rule = (
         "projection %r x rotation %r x 3 scales x skew %r x both parities x 4 reference-pixel placements x 3 reference values x sizes %r x "
-        "{Image, ImageDescription}, plus a thinned copy of the lattice with latitude-first world axes; one WCS instance shared by objects of three heights, each flipped; every pixel of every image compared; non-trivial = rotated, skewed or off-centre reference pixel"
+        "{Image, ImageDescription}, plus a thinned copy of the lattice with latitude-first world axes, triangular and quarter-turn matrices with exact zeros in CD and CDELT+PC form, and non-default LONPOLE/LATPOLE; one WCS instance shared by objects of three heights, each flipped; every pixel of every image compared; non-trivial = rotated, skewed or off-centre reference pixel"
         % (projs, thetas, skews, sizes)
     )
     rep.assumptions = ["linear WCS only (no SIP/TPV distortion terms)", "sky positions compared as angular separation to a thousandth of a pixel (at most 1e-9 degree)"]
@@ -270,6 +284,9 @@ def run(tier, seed):
             cases.append((proj + "-LATFIRST", th, sc, sk, par_, ck, cv, sz, kind))
     for th, form, par_ in itertools.product(sorted(EXACT), (0.0, 1.0), (-1, 1)):
         cases.append(("TAN-LATFIRST", th, scales[1], form, par_, "centre", crvals[1], (5, 4), "image"))
+    # non-default LONPOLE/LATPOLE (the orientation of the native system is part of the mapping)
+    for proj, th, par_, ck, cv, sz, kind in itertools.product(projs, thetas[::2], (-1, 1), crpix_kinds[:2], crvals[:2], [(5, 4), (2, 3)], ("image", "description")):
+        cases.append((proj + "-POLE", th, scales[1], 0.0, par_, ck, cv, sz, kind))
     n = par.ncores() * 2
     par.pmap(case, [cases[i::n] for i in range(n)], rep)
     return rep.finish()
